@@ -48,6 +48,7 @@ type Tunnel struct {
 
 // Write puts the packet on the transport and updates the statistics for bytes sent
 func (t *Tunnel) Write(pkt []byte) {
+	verifPoint("tunnel.write")
 	n, _ := t.transportOut.WritePacket(pkt)
 	t.BytesSent += int64(n)
 }
